@@ -33,6 +33,8 @@ def register(M):
             return v.n
         if isinstance(v, tuple):
             return len(v)
+        if isinstance(v, IvVal):
+            return z3.If(v.kind == 0, z3.IntVal(2), z3.IntVal(-1))     # only reached after the type test
         if isinstance(v, SDict):
             return set_card(v.dom, st)
         if isinstance(v, SSet):
@@ -175,6 +177,8 @@ def register(M):
         return OR(*r)
 
     def has_type(v, nm, exact):
+        if isinstance(v, IvVal):
+            return {'tuple': v.kind == 0, 'int': v.kind == 1, 'float': v.kind == 2}.get(nm, False)
         if tag(v) == 'pyscalar':
             # symbolic "python int or python float" parameter: ('pyscalar', isint: z3 Bool, value)
             if nm == 'int': return v[1]
